@@ -1083,6 +1083,8 @@ def install(lib):
     st = cx.st(a)
     k = dtype_kind(dtype)
     maycopy = not (isinstance(copy, VBool) and copy.conc() is False)
+    if not st.shape.concrete:   # symbolic rank (validators): same shape object
+      return cx.p.new_loc(ArrState(st.term, st.shape, k, FRESH if maycopy else st.owner, None if maycopy else (a.loc, st.version), vf=st.vf))
     return cx.new(st.term, st.shape.dims, k, FRESH if maycopy else st.owner, base=None if maycopy else (a.loc, st.version), vf=st.vf)
 
   @method('squeeze')
